@@ -34,7 +34,7 @@ CHUNK = 4
 
 def cases(tier, seed):
     thorough = tier == "thorough"
-    units = [(1, 1), (2, 2), (2, 1), (1, 2)] if not thorough else [(1, 1), (2, 2), (2, 1), (1, 2), (3, 3), (3, 2), (2, 3)]
+    units = [(1, 1), (2, 2), (2, 1)] if not thorough else [(1, 1), (2, 2), (2, 1), (1, 2), (3, 3), (3, 2), (2, 3)]
     numberings = BOUNDS[tier]["numberings"]
     trees = A.trees_upto(3)
     seen = set()
